@@ -5,7 +5,7 @@ import time
 from supvisors.ttypes import SUPVISORS_PUBLICATION, SUPVISORS_NOTIFICATION
 
 PUB = {'TICK': 0, 'PROCESS': 1, 'PROCESS_ADDED': 2, 'PROCESS_REMOVED': 3, 'PROCESS_DISABILITY': 4, 'STATE': 7}
-NOTIF = {'IDENTIFICATION': 0, 'AUTHORIZATION': 1, 'STATE': 2, 'ALL_INFO': 3, 'INSTANCE_FAILURE': 5}
+NOTIF = {'IDENTIFICATION': 0, 'AUTHORIZATION': 1, 'STATE': 2, 'ALL_INFO': 3, 'DISCOVERY': 4, 'INSTANCE_FAILURE': 5}
 
 
 def origins(w, peer):
@@ -80,4 +80,10 @@ def messages(w, receiver, peer, ns='A:a', timestamps=('fresh', 'stale', 'checkin
         out.append((f'notif:ALL_INFO-none:{ok}', SUPVISORS_NOTIFICATION, [o, [NOTIF['ALL_INFO'], None]]))
         out.append((f'notif:INSTANCE_FAILURE:{ok}', SUPVISORS_NOTIFICATION, [o, [NOTIF['INSTANCE_FAILURE'], None]]))
         out.append((f'notif:IDENTIFICATION-none:{ok}', SUPVISORS_NOTIFICATION, [o, [NOTIF['IDENTIFICATION'], None]]))
+    # discovery datagrams of the peer (turned into DISCOVERY notifications by the receiving side): unchanged identity,
+    # same address under another Supervisor identifier (restarted with supervisord -i), same nick at another address
+    ip, port = ident.rsplit(':', 1)
+    for label, o in (('same', [ident, nick, [ip, int(port)]]), ('renamed', [ident, 'renamed', [ip, int(port)]]),
+                     ('moved', [f'{ip}:{int(port) + 7}', nick, [ip, int(port) + 7]])):
+        out.append((f'notif:DISCOVERY:{label}', SUPVISORS_NOTIFICATION, [o, [NOTIF['DISCOVERY'], None]]))
     return out
